@@ -815,7 +815,7 @@ func (c *ctx) evalCall(f *gen.Call) Value {
 		}
 		return strV(re.ReplaceAllString(c.toStr(ev(0)), DollarBrace(c.toStr(ev(2)), re.NumSubexp())))
 	}
-	panic("ref: unknown function " + f.Name)
+	return undef() // not a function the reference defines (e.g. reverse, a sequence function)
 }
 
 // DollarBrace reads $n as group n: at every '$' followed by digits, the
